@@ -34,6 +34,11 @@ func (n1 jsonNumber) Equals(node JsonNode, metadata ...Metadata) bool {
 }
 
 func (n jsonNumber) hashCode(metadata []Metadata) [8]byte {
+	if n == 0 {
+		// Normalize negative zero. Equals treats 0 and -0 as the
+		// same number so they must hash the same.
+		n = 0
+	}
 	a := make([]byte, 0, 8)
 	b := bytes.NewBuffer(a)
 	binary.Write(b, binary.LittleEndian, n)
